@@ -176,7 +176,19 @@ func runC12(r *vk.Run) {
 			default:
 				b.L, b.R = left, right
 			}
-			text := b.Text()
+			var expr MExpr = b
+			if cb.shape == "vv" && !isCmp(cb.op) && rng.Chance(1, 4) {
+				// operands that remove labels with `without`, the operation itself below an aggregation that
+				// removes another one: what an outer clause removes is removed from ITS result, the operands
+				// of the following steps are what they were
+				lw, rw := c12Leaf("l|both"), c12Leaf("r|both")
+				lw.Without, lw.Group = true, []string{"v", "msg", "side", "job"}
+				rw.Without, rw.Group = true, []string{"v", "msg", "side", "job"}
+				b.L, b.R = lw, rw
+				expr = &VecAgg{Op: vk.Pick(rng, []string{"sum", "count"}), Grouped: true, Without: true, Group: []string{vk.Pick(rng, []string{"b", "a"})}, Inner: b} // (not max/min: x % 0 is NaN, and NaN has no rank)
+				c.Count("operations_below_a_without_aggregation", 1)
+			}
+			text := expr.Text()
 			p := EvalP{Start: metricT0 + 4e9, End: metricT0 + int64(steps)*4e9, Step: 4 * time.Second}
 			if rng.Chance(1, 5) {
 				T := metricT0 + int64(rng.Range(1, steps))*4e9
@@ -195,7 +207,7 @@ func runC12(r *vk.Run) {
 			if isCmp(cb.op) {
 				m = compareComparison(b, env, p, res)
 			} else {
-				m = compareMetric(b, env, p, res, 1e-12)
+				m = compareMetric(expr, env, p, res, 1e-12)
 			}
 			if m != "" {
 				key := ""
